@@ -45,6 +45,7 @@ class Interp:
         # connection attempts are refused after `refuse_latency` seconds: with a non-zero latency sends land both
         # while an attempt is in flight and during the 2 s back-off
         self.rig.net.default = ("refuse", refuse_latency)
+        self.refuse_latency = refuse_latency
         self.ops = [["init", gen, opened, refuse_latency]]
         self.open = False
         self.model: list = []  # dict(exp, expiry, kind)
@@ -105,6 +106,64 @@ class Interp:
         if len(self.model) == CAP:
             self.nt.add("reached-capacity")
 
+    def op_fault_burst(self, kind, params, retries, lifetime, burst):
+        """The link is up; the write of a message fails (so the message is held for a retry if it has retries left)
+        and a connection subscriber reacts to the loss of the connection by sending a burst of messages; every
+        reconnection attempt is refused from then on."""
+        rig, loop = self.rig, self.rig.loop
+        rig.net.default = ("accept", 0.0)
+        rig.open()
+        self.open = True
+        for _ in range(40):
+            if rig.sock.is_connected:
+                break
+            loop.advance(0.125)
+        if not rig.sock.is_connected:
+            self.bad("no-connection", "client did not connect to an accepting network")
+        rig.net.default = ("refuse", self.refuse_latency)
+        rig.net.current.fail_write(1)
+        results, fired = [], []
+
+        async def on_conn(*, connected: bool) -> None:
+            if connected or fired:
+                return
+            fired.append(loop.time())
+            for (k, p, life) in burst:
+                try:
+                    await rig.sock.send(sockops.build(self.gen, k, p), sockmod.RetryPolicy(max_retries=0, max_lifetime=life))
+                    results.append(("ok", None, loop.time()))
+                except Exception as exc:  # noqa: BLE001 - judged below
+                    results.append(("raise", exc, loop.time()))
+        rig.sock.subscribe_on_connection_changed(on_conn)
+        now = loop.time()
+        mtype, data = sockops.expect(self.gen, kind, params)
+        task = loop.spawn(rig.sock.send(sockops.build(self.gen, kind, params),
+                                        sockmod.RetryPolicy(max_retries=retries, max_lifetime=lifetime)))
+        loop.settle()
+        if not task.done() or task.exception() is not None:
+            self.bad("send-connected", f"send into a failing write: {task!r}")
+        if not fired or len(results) != len(burst):
+            self.bad("no-disconnect-notification", "the write failure was not followed by a 'disconnected' notification "
+                                                   "(or the subscriber's sends did not return)")
+        self.nt.add("burst-after-write-failure")
+        if retries >= 1:
+            self.model.append({"exp": (mtype, data), "expiry": now + lifetime, "kind": kind})
+            self.nt.add("retry-held")
+        for (k, p, life), (res, exc, t) in zip(burst, results):
+            self.model = [m for m in self.model if t < m["expiry"]]
+            if len(self.model) >= CAP:
+                self.nt.add("overflow")
+                if res != "raise" or not isinstance(exc, sockmod.QueueOverflowError):
+                    self.bad("no-overflow-error", f"eleventh unexpired message (sent from a connection subscriber right after a "
+                                                  f"failed write, {retries} retries left on the failed message): {res} {exc!r} "
+                                                  f"instead of QueueOverflowError")
+                continue
+            if res != "ok":
+                self.bad("spurious-error", f"send with {len(self.model)} unexpired entries held: {exc!r}")
+            self.model.append({"exp": sockops.expect(self.gen, k, p), "expiry": t + life, "kind": k})
+            if len(self.model) == CAP:
+                self.nt.add("reached-capacity")
+
     def op_advance(self, dt):
         self.rig.loop.advance(dt)
 
@@ -128,7 +187,7 @@ class Interp:
         if not self.rig.sock.is_connected:
             self.bad("no-connection", "client did not connect within 10 s of the network accepting")
         # entries alive at the instant of connection
-        t_open = [e[0] for e in self.rig.net.log if e[1] == "open"][0]
+        t_open = [e[0] for e in self.rig.net.log if e[1] == "open"][-1]
         alive = [m for m in self.model if t_open < m["expiry"]]
         if len(alive) != len(self.model):
             self.nt.add("expired-before-connection")
@@ -185,6 +244,14 @@ def make_machine(gen: int, stats: Stats):
         def start(self, opened, lat):
             self._ensure(opened, lat)
 
+        @rule(kp=sockops.kind_and_params(gen), retries=st.integers(0, 2), lifetime=st.sampled_from([2.0, 30.0]),
+              burst=st.lists(st.tuples(sockops.kind_and_params(gen), st.sampled_from([2.0, 30.0, 30.0])), min_size=8, max_size=13),
+              lat=st.sampled_from([0.0, 0.5]))
+        def start_with_failed_write(self, kp, retries, lifetime, burst, lat):
+            if self.x is None:
+                self.x = Interp(gen, False, lat)
+                self._do(["fault_burst", kp[0], kp[1], retries, lifetime, [[b[0][0], b[0][1], b[1]] for b in burst]])
+
         @rule(kp=sockops.kind_and_params(gen), retries=st.integers(0, 3), lifetime=st.sampled_from(LIFETIMES))
         def send(self, kp, retries, lifetime):
             self._ensure()
@@ -235,7 +302,8 @@ def shards(tier: str):
 
 
 def floors(tier: str):
-    return {"overflow": 40, "expired-before-connection": 40, "send-not-open": 20, "connected": 200, "attempt-in-flight": 50}
+    return {"overflow": 40, "expired-before-connection": 40, "send-not-open": 20, "connected": 200, "attempt-in-flight": 50,
+            "burst-after-write-failure": 30, "retry-held": 15}
 
 
 def run_shard(spec, seed: int, tier: str):
